@@ -5,6 +5,7 @@ package gorums
 import (
 	"sync/atomic"
 
+	"google.golang.org/grpc/connectivity"
 	"google.golang.org/protobuf/reflect/protoreflect"
 )
 
@@ -65,6 +66,18 @@ func VerifRouterCount(n *RawNode) int {
 // VerifSetNextMsgID makes the manager continue its message IDs after base, so
 // that several managers in one process use disjoint IDs in a trace.
 func VerifSetNextMsgID(m *RawManager, base uint64) { atomic.StoreUint64(&m.nextMsgID, base) }
+
+// VerifRedialNow makes gRPC redial the node's connection at once instead of
+// waiting for gRPC's own connection back-off (the environment's timer firing
+// now), and reports whether the transport is ready.
+func VerifRedialNow(n *RawNode) bool {
+	if n == nil || n.conn == nil {
+		return false
+	}
+	n.conn.ResetConnectBackoff()
+	n.conn.Connect()
+	return n.conn.GetState() == connectivity.Ready
+}
 
 // VerifSendQLen returns the number of requests buffered in the node's send queue.
 func VerifSendQLen(n *RawNode) int {
